@@ -56,10 +56,15 @@ func NewWorld() (*World, error) {
 	return w, nil
 }
 
+const hostedDomain = "allowed.test"
+
 func newSite(c Cfg) (*Site, error) {
 	o := world.AuthOpts{Provider: c.Prov, Host: authHost, LifeK: LifeK}
 	if c.Pol == "addresses" {
 		o.EmailAddrs = listedAddrs
+		// (one of the two Google sites is configured for a hosted domain, as Google deployments usually are: what the
+		// identity provider says about `hd` is no substitute for what it says about the e-mail)
+		o.HostedDomain = hostedDomain
 	} else {
 		o.EmailDomains = []string{allowedDomain}
 	}
